@@ -286,10 +286,15 @@ def check_c09(tier: str) -> int:
                             raws.append(sockrun.build_frame(gen, it[1], 0x90 if it[2] == 0x1F else 0x80, rng.randrange(256), it[2], it[3]))
                     rig.console.noise[k] = raws
             if scen == "segment":
-                def seg(data, _r=rng):
+                bytewise = rng.random() < 0.4
+
+                def seg(data, _r=rng, _bw=bytewise):
+                    if _bw:
+                        return [data[i:i + 1] for i in range(len(data))]
                     cuts = sorted(_r.randrange(len(data) + 1) for _ in range(_r.choice([1, 2, 5])))
                     return [data[a:b] for a, b in zip([0] + cuts, cuts + [len(data)])]
                 rig.console.segment = seg
+                rig.console.turns = rng.choice([0, 1, 1, 2])      # the client runs between two segments
             if scen == "silent":
                 silent = rng.randrange(6)
                 rig.console.silent_from = silent
